@@ -395,8 +395,10 @@ def r3_bb(ctx, repo):
         ctx.inconclusive("R3", C, where(doe, il), "block counter not recognised (%s)" % sorted(counters))
         return
     c0 = pre_env.get(cnt)
-    if not (c0 is not None and is_const(c0) and const_value(c0) == 0):
-        problems.append("the block counter does not start at 0")
+    if not (c0 is not None and is_const(c0) and isinstance(const_value(c0), int)):
+        ctx.inconclusive("R3", C, where(doe, il), "start value of the block counter %s not recognised" % cnt)
+        return
+    c0 = const_value(c0)        # the k-th pair (k = 0, 1, ..) sees the counter at c0 + k (+1 when it is advanced before the blocks are written)
     matrix = access_path(blocks[0].targets[0].value)
     cols_seen = []
     S = None
@@ -420,7 +422,7 @@ def r3_bb(ctx, repo):
             unknown.append("row block %s has an open end" % text(s_.targets[0]))
             continue
         lo2, hi2 = subst(lo, {S: "S"}), subst(hi, {S: "S"})
-        e_lo, e_hi = poly.equal(lo2, poly.parse("%s * S" % cnt)), poly.equal(hi2, poly.parse("(%s + 1) * S" % cnt))
+        e_lo, e_hi = poly.equal(lo2, poly.parse("(%s - %d) * S" % (cnt, c0))), poly.equal(hi2, poly.parse("(%s - %d + 1) * S" % (cnt, c0)))
         if e_lo is None or e_hi is None:
             unknown.append("row block %s not normalisable" % text(s_.targets[0]))
         elif not (e_lo and e_hi):
